@@ -14,7 +14,7 @@ RULE = ("generated object graphs (lists, tuples, sets, dicts, plain objects; nes
         "py/id numbering and the decoded graph's shape compared in Coq; (rec) stored in a MemoryRecording and read "
         "twice; (cas) saved to and fetched from the in-memory, file and S3 cassettes along a random history of lookups, "
         "fetches and in-place mutations; (play) recorded through TapeRecorder and replayed several times while the "
-        "replayed code mutates what it is handed; (copy) intercepted with copy-on-interception on and off, with and without an input data handler whose recorded form embeds live call arguments (out-parameter, request object).  The direct "
+        "replayed code mutates what it is handed; (copy) intercepted with copy-on-interception on and off, with and without an input data handler whose recorded form embeds live call arguments (out-parameter, request object), under every way the recording comes to be saved (sampling rate 0 / in between / 1, force_sample_recording() called before, inside or after the interception, after the in-place mutation or at the end of the operation - a probe stream that always runs enumerates rate x enforcement point x handler).  The direct "
         "predicate walks the real objects by id() (no shared mutable node between handed-out value and store / other "
         "hand-outs) and compares order-insensitive snapshots before and after the mutations.  non-trivial = at least "
         "one mutable container in a handed-out value; distinct = distinct case")
@@ -28,6 +28,8 @@ TRUSTED = ["lib/heapgraph.py: graph builder, id()-based walk of mutable nodes, s
 
 CTYPES = ["mem", "file", "s3"]
 HFORMS = ("result", "pair", "dict", "req", "buf_only", "nested", "fresh")
+FORCE_POINTS = ("start", "in_input", "after_input", "after_mutation", "end")
+RATES = (0, 0.3, 0.999, 1.0)
 KEYS = [k for k in pv.KEY_TEXTS]
 ATTRS = ["x", "y", "name", "é", "_p", "items"]
 CLS = ["lib.pyvals.Pt", "lib.pyvals.Qt"]
@@ -188,8 +190,35 @@ def generate(rng, tier):
                                 empty_obj=0.0, reserved_keys=0.0),
                  vreq=gen_graph(rng, size=4, depth=2, share=0.1, root_kind=rng.choice(["dict", "obj", "list"]),
                                 empty_obj=0.0, reserved_keys=0.0))
+        # the sampling configuration of the operation class: half of the cases keep the default parameters, the others draw a
+        # rate from RATES and (always for rate 0, which is otherwise never saved) a point where the operation enforces sampling
+        if rng.random() < 0.5:
+            c["rate"] = rng.choice(RATES)
+            c["rseed"] = rng.randrange(1000)
+            c["force"] = rng.choice(FORCE_POINTS) if (c["rate"] == 0 or rng.random() < 0.5) else None
         cases.append(c)
+    cases += sampling_probes(rng)
     return cases
+
+
+def sampling_probes(rng):
+    """Copy-on-interception under every way a recording comes to be saved (always run, both tiers): sampling rate
+    0 / in between / 1 x the point of the operation where force_sample_recording() is called (never, before the input is
+    intercepted, inside the intercepted input, after the interception but before the in-place mutation, after the mutation,
+    at the end) x without / with an input data handler; copy-on-interception on, values with at least one mutable node.
+    The cases whose recording is not saved (rate 0 never enforced, a losing draw) say nothing and are reported as such."""
+    out = []
+    for rate in (0, 0.5, 1.0):
+        for force in (None,) + FORCE_POINTS:
+            for hform in (None, "dict"):
+                vin = value_graph(rng)
+                if not any(nd["k"] in hg.MUTABLE_KINDS for nd in vin["heap"]):
+                    vin = _g([T(R(1), pv.i(3)), L(pv.i(30), pv.i(10), pv.i(20))])
+                out.append(dict(kind="copy", stream="sampling", copy=True, vin=vin,
+                                vout=_g([D(("rows", R(1))), L(pv.i(1), pv.i(2))]), script=[[0, 1], [1, 3]],
+                                hform=hform, via="arg", static=False, rate=rate, rseed=rng.randrange(1000), force=force,
+                                vbuf=_g([L(R(1)), D(("x", pv.i(1)))]), vreq=_g([D(("q", R(1))), L(pv.i(1))])))
+    return out
 
 
 def _g(heap, root=0):
@@ -353,12 +382,17 @@ def direct(case, obs):
                                   "observes different %s: %s -> %s" % (i, p["pre"], i - 1, name, str(p0[name])[:300], str(p[name])[:300])))
                         break
     elif kind == "copy":
+        if not obs.get("saved", True) and not must_be_saved(case):
+            return f                    # not sampled (rate < 1, not enforced): no recording, nothing is claimed
         for o in obs["values"]:
             if not o.get("recorded"):
-                f.append(("copy-not-recorded", "%s: nothing recorded" % o["tag"]))
+                f.append(("copy-not-recorded", "%s: nothing recorded (sampling rate %r, sampling enforced at %r)" %
+                          (o["tag"], case.get("rate"), case.get("force"))))
                 continue
             if case["copy"] and o["copy_possible"]:
                 how = "data handler form %r" % case.get("hform") if (case.get("hform") and o["tag"] == "in") else "no data handler"
+                if case.get("rate") is not None or case.get("force"):
+                    how += "; sampling rate %r, force_sample_recording() at %r" % (case.get("rate"), case.get("force"))
                 if _sh(o["share_recorded_result"]):
                     f.append(("copy-on-recorded-shares-result", "%s (%s): with copy-on-interception the recorded value shares %r with the value "
                               "returned to the service" % (o["tag"], how, o["share_recorded_result"])))
@@ -370,6 +404,12 @@ def direct(case, obs):
                     f.append(("copy-on-recording-follows-later-mutation", "%s (%s): with copy-on-interception the recorded value is not the copy "
                               "of what was captured: %s vs %s" % (o["tag"], how, o.get("recorded_snap"), o.get("at_capture"))))
     return f
+
+
+def must_be_saved(case):
+    """The recording of a copy case is certainly saved: default / full sampling rate, or sampling enforced by the operation."""
+    rate = case.get("rate")
+    return rate is None or rate >= 1 or bool(case.get("force"))
 
 
 def shrink_candidates(case):
@@ -456,6 +496,11 @@ def features(case):
         f.add("data-handler:%s" % case.get("hform"))
         f.add("out-parameter-via:%s" % case.get("via"))
         f.add("static-input" if case.get("static") else "instance-input")
+        rate = case.get("rate")
+        f.add("sampling-rate:%s" % ("default" if rate is None else "0" if rate == 0 else "1" if rate >= 1 else "between"))
+        f.add("sampling-enforced:%s" % case.get("force"))
+        if case["copy"] and rate == 0 and case.get("force") in ("after_input", "after_mutation", "end"):
+            f.add("copy-on:rate-0-enforced-after-capture")
     return f
 
 
@@ -465,7 +510,7 @@ def nontrivial(case):
 
 MANIFEST = dict(
     design_ref='6/C11',
-    text="Coq theorems on a heap model where identity and in-place mutation are expressible (locations, list/tuple/set/dict/object nodes): decode allocates only new locations (the old heap is a prefix, everything reachable from the result is new); a get_data result is such a decode of the stored datum's encoding, and for EVERY heap that agrees with the old one on the old locations - in particular after any sequence of in-place mutations and allocations made through the handed-out value (mutation locality + closure theorem) - the stored datum and the whole recording encode exactly as before; cassettes hold text, two fetches of one id occupy disjoint location ranges and mutating one changes neither the other nor a later fetch; with copy-on-interception the recorded value is a decode of the result's encoding at capture and later mutation of the result leaves its encoding unchanged, with the flag off a concrete example shows the recording does change (documented aliasing); a copy re-encodes to the same JSON, so reads and copy-on recordings are faithful (three _partial theorems: proved for canonical encodings without py/id, i.e. no list/object met twice; false with py/id, witness example).  The model (jsonpickle 0.9.3 encode incl. py/id numbering, decode incl. id table and the second restore pass over object state) is tied to /repo on every run by comparing exact encode text, decoded graph shape and re-encode text for generated graphs with sharing and cycles.  Direct predicate on the real MemoryRecording, TapeRecorder.play, recorded_outputs, copy-on-interception and all three cassettes: id()-walk disjointness of mutable nodes between every handed-out value and the store / other hand-outs, then scripted in-place mutation through every reachable mutable node and re-read / re-fetch / re-play comparison.",
+    text="Coq theorems on a heap model where identity and in-place mutation are expressible (locations, list/tuple/set/dict/object nodes): decode allocates only new locations (the old heap is a prefix, everything reachable from the result is new); a get_data result is such a decode of the stored datum's encoding, and for EVERY heap that agrees with the old one on the old locations - in particular after any sequence of in-place mutations and allocations made through the handed-out value (mutation locality + closure theorem) - the stored datum and the whole recording encode exactly as before; cassettes hold text, two fetches of one id occupy disjoint location ranges and mutating one changes neither the other nor a later fetch; with copy-on-interception the recorded value is a decode of the result's encoding at capture and later mutation of the result leaves its encoding unchanged, with the flag off a concrete example shows the recording does change (documented aliasing); a copy re-encodes to the same JSON, so reads and copy-on recordings are faithful (three _partial theorems: proved for canonical encodings without py/id, i.e. no list/object met twice; false with py/id, witness example).  The model (jsonpickle 0.9.3 encode incl. py/id numbering, decode incl. id table and the second restore pass over object state) is tied to /repo on every run by comparing exact encode text, decoded graph shape and re-encode text for generated graphs with sharing and cycles.  Direct predicate on the real MemoryRecording, TapeRecorder.play, recorded_outputs, copy-on-interception (for every sampling rate / enforced-sampling point under which the recording is saved) and all three cassettes: id()-walk disjointness of mutable nodes between every handed-out value and the store / other hand-outs, then scripted in-place mutation through every reachable mutable node and re-read / re-fetch / re-play comparison.",
     note='Trusted: Coq kernel + vm_compute; hand-written heap model of jsonpickle 0.9.3 on py3.12 for lists/tuples/sets/str-keyed dicts/plain objects (custom __getstate__/__reduce__ classes, non-str keys, exceptions are outside the model and covered by the direct predicate only); json.dumps/json.loads taken as inverse on pickler output; quoted-printable oracle.  Round trip of a copy is proved for id-free encodings only (partial): with shared lists/objects jsonpickle itself mis-resolves py/id after an object whose state holds a list (model reproduces it; a fidelity matter of C07, not independence).  Output arguments are never copied even with copy-on (flag covers intercepted return values): observation, not claimed.',
     technique='Coq proof (fuel induction over a heap model with explicit locations; locality/frame lemmas) + exact-text and graph-shape correspondence by vm_compute + id()-based aliasing walk and mutate/re-read/re-fetch/re-play differential run on the real classes',
 )
